@@ -4,7 +4,8 @@ The real source text of the Stack / PriorityQueue method bodies is taken from th
 /repo on every run (decorators and annotations stripped mechanically, nothing else changed) and
 executed under CPython against small Python models of the Guppy primitives the bodies use
 (array of Option cells with take/swap/unwrap/unwrap_nothing, panic).  All push orders of up to 7
-entries (distinct priorities and ties) followed by a full drain, plus random interleavings, are
+entries (distinct priorities and ties) followed by a full drain, interleaved push/pop/push/drain
+histories over tied and rotated priorities, plus random interleavings, are
 compared with a reference priority queue / list.  Used only to attach a concrete failing input
 to an obligation the solver could not decide after a change of the code.
 """
@@ -107,9 +108,22 @@ def seqs():
     for n in range(1, cap + 1):
         for tie in itertools.product(range(3), repeat=n):
             yield [("push", p) for p in tie] + [("peek",)] + [("pop",)] * n
+    # interleaved histories: push a entries, pop b of them, push c more, drain — all priority
+    # vectors over {0, 1} (ties) and over a rotation of distinct values
+    for a in range(1, 6):
+        for b in range(1, min(a, 2) + 1):
+            for c in range(1, min(cap - (a - b), 4) + 1):
+                for pr in itertools.product(range(2), repeat=a + c):
+                    yield [("push", p) for p in pr[:a]] + [("pop",)] * b + [("push", p) for p in pr[a:]] + [("pop",)] * (a - b + c + 1)
+                base = list(range(a + c))
+                for rot in range(a + c):
+                    for rev in (False, True):
+                        pr = base[rot:] + base[:rot]
+                        if rev: pr = pr[::-1]
+                        yield [("push", p) for p in pr[:a]] + [("pop",)] * b + [("push", p) for p in pr[a:]] + [("pop",)] * (a - b + c + 1)
     rnd = random.Random(I.get("seed", 0))
-    for _ in range(3000):
-        yield [rnd.choice([("push", rnd.randrange(5)), ("push", rnd.randrange(5)), ("pop",), ("peek",)]) for _ in range(rnd.randrange(1, 14))]
+    for _ in range(12000):
+        yield [rnd.choice([("push", rnd.randrange(5)), ("push", rnd.randrange(5)), ("pop",), ("peek",)]) for _ in range(rnd.randrange(1, 20))]
 which = I.get("which", "both")
 for ops in seqs():
     count += 1
